@@ -57,6 +57,15 @@ def shards(tier, seed):
                 if n_centres > 5 and ev != 'ints-unbalanced' and method == 'correlation':
                     continue
                 out.append({'kind': 'rdms', 'n_centres': n_centres, 'method': method, 'events': ev})
+    # centre lists in the caller's own order (rotated, scrambled), below and above the chunking limit, and
+    # designs with one observation per condition whose labels are not in ascending order
+    for method in ('euclidean', 'correlation'):
+        for n_centres in (5, 1001):
+            for order in ('rotated', 'scrambled'):
+                out.append({'kind': 'rdms', 'n_centres': n_centres, 'method': method, 'events': 'ints-unbalanced',
+                            'centre_order': order})
+            for ev in ('distinct-unsorted', 'distinct-strings'):
+                out.append({'kind': 'rdms', 'n_centres': n_centres, 'method': method, 'events': ev})
     # data in other units (volts, raw scanner units) and six-digit condition codes
     for method in ('euclidean', 'correlation'):
         for n_centres in (5, 1001):
@@ -185,7 +194,9 @@ def judge_rdms(ctx, case, seed):
     n_centres, method = case['n_centres'], case['method']
     events = {'ints-unbalanced': [3, 1, 2, 1, 3, 3, 2], 'strings': ['b', 'a', 'c', 'a', 'b', 'c', 'a'],
               'two-conds': [1, 0, 1, 0, 0, 1, 1],
-              'big-ids': [100003, 100001, 100002, 100001, 100003, 100003, 100002]}[case['events']]
+              'big-ids': [100003, 100001, 100002, 100001, 100003, 100003, 100002],
+              'distinct-unsorted': [3, 1, 5, 2, 4, 7, 6],
+              'distinct-strings': ['d', 'b', 'f', 'a', 'c', 'g', 'e']}[case['events']]
     scale = float(case.get('scale', 1.0))
     n_obs = len(events)
     V = max(n_centres + 10, 40)
@@ -194,6 +205,12 @@ def judge_rdms(ctx, case, seed):
     unit = scale ** 2 if method == 'euclidean' else 1.0      # size of a typical dissimilarity
     centers = np.array([(7 * i + 3) % V for i in range(n_centres)]) if n_centres <= V else np.arange(n_centres)
     centers = np.arange(n_centres) + 2
+    V = max(V, n_centres + 10)
+    if case.get('centre_order') == 'rotated':
+        centers = np.roll(centers, 7 % max(1, n_centres))
+    elif case.get('centre_order') == 'scrambled':
+        step = next(k for k in (7, 11, 13, 17) if math.gcd(k, n_centres) == 1)
+        centers = centers[(np.arange(n_centres) * step + 3) % n_centres]
     neighbors = [np.array([c, (c + 1) % V, (c + 5) % V, (c * 3 + 1) % V]) for c in centers]
     neighbors = [np.array(sorted(set(nb.tolist()))) for nb in neighbors]
     sig = 'get_searchlight_RDMs|%s' % ('chunked' if n_centres > 1000 else 'unchunked')
